@@ -52,6 +52,7 @@ with from_alpha_inner (cs : charset) (inner : eos) : res (list subset) :=
 (* PerVisibleAlphabetConstraints::try_new *)
 Definition try_new (fuel : nat) (t : string_type) (c : constraint) : res (option (list subset)) :=
   if negb (known_multiplier t) then Ok None
+  else if cext c then Ok None      (* X.691 10.3.10: an extensible permitted alphabet is not PER-visible *)
   else
     let cs := character_set t in
     match cset c with
